@@ -367,6 +367,11 @@ def run(repo, rep, tier):
       if i.rule.startswith('R2/must-reset'):
         i.rule = 'R5/cache-invalidation'
         rep.instances.append(i)
+    sub = type(rep)(rep.prop, rep.tier, rep.repo)
+    c08.r4_reads_do_not_mutate(repo, sub, q)
+    for i in sub.instances:
+      i.rule = 'R5/read-does-not-mutate'
+      rep.instances.append(i)
   from mmsa.props import c07
   sub = type(rep)(rep.prop, rep.tier, rep.repo)
   c07.r3_scenario(repo, sub)
